@@ -281,6 +281,30 @@ def rule_A5(tree: Tree) -> RuleResult:
     idx = [n.ast.value for n in cfg.nodes if n.kind == "stmt" and isinstance(n.ast, ast.Assign) and dotted(n.ast.targets[0]) == "index"]
     ok = bool(idx) and all(src(v) in ("int(self.block_length / 8)", "self.block_length // 8", "self.block_length >> 3") for v in idx)
     r.ob(ok, Finding("A5", "decryptor:Decryptor.decrypt_last_block_iv_cbc:residue-length", f"the residue length must be block_length/8 bytes; found {[src(v) for v in idx]}", m.line(f.node)))
+    # encrypt-then-MAC (RFC 7366) in both CBC methods: the MAC is cut off the ciphertext *before* decryption iff the extension was negotiated,
+    # otherwise it is cut off the plaintext *after* unpadding
+    for mn in ("decrypt_tls12_block_cipher", "decrypt_last_block_iv_cbc"):
+        fm = dec.methods.get(mn)
+        if fm is None:
+            raise AnchorMissing(f"Decryptor.{mn} not found")
+        c2 = cfg_of(fm.node)
+        r.instances += 1
+        upds = [n for n in c2.nodes if n.kind == "stmt" and any(isinstance(c, ast.Call) and isinstance(c.func, ast.Attribute) and c.func.attr == "update" for c in ast.walk(n.ast))]
+        pre = [n for n in c2.nodes if n.kind == "stmt" and isinstance(n.ast, ast.Assign) and src(n.ast) == "ciphertext = ciphertext[:-self.mac_length]"]
+        post = [n for n in c2.nodes if n.kind == "stmt" and isinstance(n.ast, ast.Assign) and src(n.ast) in ("decrypted = decrypted[:-self.mac_length]", "plaintext = plaintext[:-self.mac_length]")]
+        ok = len(upds) == 1 and len(pre) == 1 and len(post) == 1
+        if ok:
+            U2 = upds[0]
+            ok = fact_holds(c2.facts_at(pre[0].id), "self.encrypt_then_mac", True) and c2.paths_exist(pre[0].id, U2.id) and not c2.paths_exist(U2.id, pre[0].id)
+            ok = ok and fact_holds(c2.facts_at(post[0].id), "self.encrypt_then_mac", False) and c2.dominates(U2.id, post[0].id)
+            # unpadding precedes the MAC strip of the plaintext
+            unpad = [n for n in c2.nodes if n.kind == "stmt" and isinstance(n.ast, ast.Assign) and "padding_len" in src(n.ast.value) and "[:-(" in src(n.ast.value)]
+            ok = ok and len(unpad) == 1 and c2.dominates(unpad[0].id, post[0].id)
+            padlen = [src(n.ast.value) for n in c2.nodes if n.kind == "stmt" and isinstance(n.ast, ast.Assign) and dotted(n.ast.targets[0]) in ("padding_length", "padding_len")]
+            ok = ok and padlen == ["decrypted[-1]"]
+        r.ob(ok, Finding("A5", f"decryptor:Decryptor.{mn}:mac-position",
+                         f"Decryptor.{mn}: with encrypt_then_mac the MAC is removed from the ciphertext before CBC decryption, otherwise from the plaintext after removing "
+                         f"padding_length + 1 bytes of padding (padding length = last plaintext byte)", m.line(fm.node)))
     # RC4: contexts constructed only in __init__, used per direction
     r.instances += 1
     g = dec.methods.get("decrypt_generic_stream_cipher")
